@@ -325,3 +325,90 @@ theorem paranoia_eq (data : Json) : CodeObj3.paranoia_mode data = paranoia data 
       (fun (kv : List Char × Json) => (paranoiaEntry kv.2).map fun e => (kv.1, e)) <;> rfl
 
 end BtcHd.TrPaper
+
+namespace BtcHd.TrPaper
+open BtcHd Wallet Cli
+
+variable {Pt : Type}
+
+/-- how `argparse` fills the `Namespace` for a parsed command line (global options + one sub-command): the table the
+translation of `main` relies on -/
+def nsOf (g : Globals) : Cmd → CodeObj3.Namespace
+  | .new pw len => { command := ([Char.ofNat 110, Char.ofNat 101, Char.ofNat 119] : List Char), mnemonic_len := len, password := pw, testnet := g.testnet,
+                     account := g.account, interval := (g.a, g.b), paranoia := g.paranoia, file := g.file }
+  | .fromXprv k => { command := ([Char.ofNat 102, Char.ofNat 114, Char.ofNat 111, Char.ofNat 109, Char.ofNat 45, Char.ofNat 109, Char.ofNat 97, Char.ofNat 115, Char.ofNat 116, Char.ofNat 101, Char.ofNat 114, Char.ofNat 45, Char.ofNat 120, Char.ofNat 112, Char.ofNat 114, Char.ofNat 118] : List Char), master_xprv := k, testnet := g.testnet,
+                     account := g.account, interval := (g.a, g.b), paranoia := g.paranoia, file := g.file }
+  | .fromMnemonic m pw => { command := ([Char.ofNat 102, Char.ofNat 114, Char.ofNat 111, Char.ofNat 109, Char.ofNat 45, Char.ofNat 109, Char.ofNat 110, Char.ofNat 101, Char.ofNat 109, Char.ofNat 111, Char.ofNat 110, Char.ofNat 105, Char.ofNat 99] : List Char), mnemonic := m, password := pw, testnet := g.testnet,
+                            account := g.account, interval := (g.a, g.b), paranoia := g.paranoia, file := g.file }
+  | .fromSeed s => { command := ([Char.ofNat 102, Char.ofNat 114, Char.ofNat 111, Char.ofNat 109, Char.ofNat 45, Char.ofNat 98, Char.ofNat 105, Char.ofNat 112, Char.ofNat 51, Char.ofNat 57, Char.ofNat 45, Char.ofNat 115, Char.ofNat 101, Char.ofNat 101, Char.ofNat 100] : List Char), seed_hex := s, testnet := g.testnet,
+                     account := g.account, interval := (g.a, g.b), paranoia := g.paranoia, file := g.file }
+  | .fromEntropy e pw => { command := ([Char.ofNat 102, Char.ofNat 114, Char.ofNat 111, Char.ofNat 109, Char.ofNat 45, Char.ofNat 101, Char.ofNat 110, Char.ofNat 116, Char.ofNat 114, Char.ofNat 111, Char.ofNat 112, Char.ofNat 121, Char.ofNat 45, Char.ofNat 104, Char.ofNat 101, Char.ofNat 120] : List Char), entropy_hex := e, password := pw, testnet := g.testnet,
+                           account := g.account, interval := (g.a, g.b), paranoia := g.paranoia, file := g.file }
+
+/-- `main()` after `parse_args`: constructor dispatch, `generate`, optional `paranoia_mode`, output route — the
+translated function is the tail of the model's `Cli.run` for every accepted command line -/
+theorem main_eq (P : Prims Pt) (os : Nat → Bytes) (fs : FsClass) (argv : List (List Char)) (g : Globals) (cmd : Cmd)
+    (h : parseArgs fs argv = some (g, some cmd)) :
+    run P os fs argv = CodeObj3.main_body P os (nsOf g cmd) := by
+  have tail : ∀ (w : Option Wallet) (ns : CodeObj3.Namespace), ns.account = g.account → ns.interval = (g.a, g.b) →
+      ns.paranoia = g.paranoia → ns.file = g.file →
+      (match w with
+        | none => Outcome.reject
+        | some w =>
+          match generate P w g.account g.a g.b with
+          | none => .reject
+          | some data =>
+            match (if g.paranoia then paranoia data else some data) with
+            | none => .reject
+            | some d => .emit (if g.file then .file else .stdout) d) =
+      (match (some w : Option (Option Wallet)) with
+        | none => Outcome.help
+        | some none => .reject
+        | some (some wallet) =>
+          match CodeObj3.pw_generate P wallet ns.account ns.interval with
+          | none => .reject
+          | some data =>
+            match (if ns.paranoia = true then CodeObj3.paranoia_mode data else some data) with
+            | none => .reject
+            | some data => .emit (if ns.file = true then .file else .stdout) data) := by
+    intro w ns h1 h2 h3 h4
+    cases w with
+    | none => rfl
+    | some w =>
+      simp only [h1, h2, h3, h4, (report_eq P w g.account g.a g.b).2.2, paranoia_eq]
+  unfold run CodeObj3.main_body
+  rw [h]
+  have hd : ∀ cmd', cmd' = cmd → (let args := nsOf g cmd'
+      (if args.command = ([Char.ofNat 110, Char.ofNat 101, Char.ofNat 119] : List Char) then some (Wallet.newWallet P os args.mnemonic_len args.password args.testnet)
+       else if args.command = ([Char.ofNat 102, Char.ofNat 114, Char.ofNat 111, Char.ofNat 109, Char.ofNat 45, Char.ofNat 109, Char.ofNat 97, Char.ofNat 115, Char.ofNat 116, Char.ofNat 101, Char.ofNat 114, Char.ofNat 45, Char.ofNat 120, Char.ofNat 112, Char.ofNat 114, Char.ofNat 118] : List Char) then some (CodeObj2.w_from_extended_key P args.master_xprv)
+       else if args.command = ([Char.ofNat 102, Char.ofNat 114, Char.ofNat 111, Char.ofNat 109, Char.ofNat 45, Char.ofNat 109, Char.ofNat 110, Char.ofNat 101, Char.ofNat 109, Char.ofNat 111, Char.ofNat 110, Char.ofNat 105, Char.ofNat 99] : List Char) then some (CodeObj2.w_from_mnemonic P args.mnemonic args.password args.testnet)
+       else if args.command = ([Char.ofNat 102, Char.ofNat 114, Char.ofNat 111, Char.ofNat 109, Char.ofNat 45, Char.ofNat 98, Char.ofNat 105, Char.ofNat 112, Char.ofNat 51, Char.ofNat 57, Char.ofNat 45, Char.ofNat 115, Char.ofNat 101, Char.ofNat 101, Char.ofNat 100] : List Char) then some (CodeObj2.w_from_bip39_seed_hex P args.seed_hex args.testnet)
+       else if args.command = ([Char.ofNat 102, Char.ofNat 114, Char.ofNat 111, Char.ofNat 109, Char.ofNat 45, Char.ofNat 101, Char.ofNat 110, Char.ofNat 116, Char.ofNat 114, Char.ofNat 111, Char.ofNat 112, Char.ofNat 121, Char.ofNat 45, Char.ofNat 104, Char.ofNat 101, Char.ofNat 120] : List Char) then some (CodeObj2.w_from_entropy_hex P args.entropy_hex args.password args.testnet)
+       else none : Option (Option Wallet))) = some (construct P os g cmd') := by
+    intro cmd' _
+    cases cmd' with
+    | new pw len =>
+      simp only [nsOf, construct]
+      rw [if_pos trivial]
+    | fromXprv k =>
+      simp only [nsOf, construct]
+      rw [if_neg (by decide), if_pos trivial, (TrWallet.constructors_eq P ⟨default, false, none, none⟩ [] [] [] [] [] k [] false).2.2.2.2.2]
+    | fromMnemonic m pw =>
+      simp only [nsOf, construct]
+      rw [if_neg (by decide), if_neg (by decide), if_pos trivial,
+        (TrWallet.constructors_eq P ⟨default, false, none, none⟩ [] [] m pw [] [] [] g.testnet).2.2.2.1]
+    | fromSeed sd =>
+      simp only [nsOf, construct]
+      rw [if_neg (by decide), if_neg (by decide), if_neg (by decide), if_pos trivial,
+        (TrWallet.constructors_eq P ⟨default, false, none, none⟩ [] sd [] [] [] [] [] g.testnet).2.2.1]
+    | fromEntropy e pw =>
+      simp only [nsOf, construct]
+      rw [if_neg (by decide), if_neg (by decide), if_neg (by decide), if_neg (by decide),
+        if_pos trivial, (TrWallet.constructors_eq P ⟨default, false, none, none⟩ [] [] [] pw e [] [] g.testnet).2.2.2.2.1]
+  have hd' := hd cmd rfl
+  simp only at hd'
+  rw [hd']
+  exact tail (construct P os g cmd) (nsOf g cmd) (by cases cmd <;> rfl) (by cases cmd <;> rfl) (by cases cmd <;> rfl)
+    (by cases cmd <;> rfl)
+
+end BtcHd.TrPaper
